@@ -21,7 +21,7 @@ RULE = ('Averager: 2-3 clients doing add(v)/get()/pop() (v small integers as flo
         'iterations. evaluations = schedules judged; distinct_nontrivial = distinct schedule traces with a '
         'preemption inside an operation + distinct (count, seconds, pattern, callers) throttle cells')
 DISTINCT = ('averager_schedules', 'throttle_cells', 'throttle_schedules')
-REQUIRED = ('averager_schedules_checked', 'averager_pops', 'averager_free_runs', 'throttle_runs', 'throttle_calls_started',
+REQUIRED = ('throttle_calls_whose_function_failed', 'averager_schedules_checked', 'averager_pops', 'averager_free_runs', 'throttle_runs', 'throttle_calls_started',
             'throttle_sleeps', 'throttle_concurrent_runs', 'throttle_runs_named_falsy', 'throttle_runs_named_derived', 'throttle_runs_on_jsondisk',
             'throttle_runs_coarse_clock')
 ASSUMPTIONS = ('throttle is driven through its own time_func/sleep_func parameters; virtual sleep blocks the caller '
@@ -201,6 +201,10 @@ def averager_free(dc, sc, res, rng, seed, topo, label):
 
 
 # -------------------------------------------------------------------- throttle
+class ThrottledBodyFailed(Exception):
+    pass
+
+
 def throttle_run(dc, sc, res, rng, label):
     d = sc.new()
     clock = probe.set_clock(probe.VClock())
@@ -251,10 +255,19 @@ def throttle_run(dc, sc, res, rng, label):
         last[me.cid if me is not None else -1] = v
         return v
 
+    # a throttled function may fail: the call was started all the same and counts against the rate
+    failing = gen.pick(rng, [0.0, 0.0, 0.3, 0.6, 1.0])
+    fail_with = gen.pick(rng, [ValueError, KeyboardInterrupt, ThrottledBodyFailed])
+    res.count('throttle_runs_with_failing_function' if failing else 'throttle_runs_function_never_fails')
+    failures = [0]
+
     def make_body(ci):
         def body():
             me = sch._me()
             starts.append(last.get(me.cid if me is not None else -1, clock.now_peek()))
+            if rng.random() < failing:
+                failures[0] += 1
+                raise fail_with('the throttled function failed')
         return body
 
     # the decorator itself stores the initial tally.  One bucket for all callers: either every caller throttles its own
@@ -287,7 +300,10 @@ def throttle_run(dc, sc, res, rng, label):
                     clock.sleep(rng.random() * 2 / rate)
                 arrivals.append(clock.now_peek())
                 loops[ci] = 0
-                wrapped[ci]()
+                try:
+                    wrapped[ci]()
+                except fail_with:
+                    pass
                 if loops[ci] > 1000:
                     raise AssertionError('more than 1000 throttle loop iterations for one call')
         return run
@@ -308,6 +324,7 @@ def throttle_run(dc, sc, res, rng, label):
         res.count('throttle_runs')
         res.count('evaluations')
         res.count('throttle_calls_started', len(starts))
+        res.count('throttle_calls_whose_function_failed', failures[0])
         res.count('throttle_sleeps', sleeps[0])
         if ncallers > 1:
             res.count('throttle_concurrent_runs')
